@@ -689,9 +689,12 @@ class _DiskEngine:
 class C12Engine(_DiskEngine):
     name = "simdisk/C12"
     RULE = ("one run = one seeded history of 2-6 saves / loads (and informational torn-file probes) of 1-4 generated sequences "
-            "against one simulated disk; every open draws a buffer size in {1, 7, 64, 8192} and a fault plan (none | short counts | "
-            "ENOSPC / EIO at byte k, k mostly inside the real file length). distinct_nontrivial counts distinct abstract histories "
-            "(crc of the sequence of (op, planned fault, faults that fired, returned?)) among runs with >=1 judged load AND >=1 fired fault.")
+            "(signatures on one carrier sequence, duplicated, or one consistent timeline spread over the sequences; program / control "
+            "changes between notes; full pitch range) against the run's simulated disk, over three save routes (sequences_save, save, "
+            "Composition.save); every open draws a buffer size in {1, 7, 64, 8192} and a fault plan (none | short counts | one EINTR | "
+            "ENOSPC / EIO at byte k, k mostly inside the real file length; persistent over the operation's opens or first open only; "
+            "permanent or transient within an open). distinct_nontrivial counts distinct abstract histories (crc of the sequence of "
+            "(op, planned fault, faults that fired, returned?)) among runs with >=1 judged load AND >=1 fired fault.")
     ASSUMPTIONS = [
         "only successful returns are judged; every raise under a fired non-maskable fault is accepted",
         "sequences are single-channel, well-formed, integer-tick, velocities 1..127; signatures are carried by one designated sequence "
@@ -1263,11 +1266,15 @@ def _c13_simplify(trace):
 
 class C13Engine(_DiskEngine):
     name = "simdisk/C13"
-    RULE = ("one run = one generated MIDI file (ticks-per-beat from 17 values incl. 7, 13, 25, 100, 1000; 1-5 tracks; note-off as "
-            "note_off or note_on velocity 0; written by mido or by a byte-level writer with running status) placed on the simulated disk "
-            "and loaded 1-3 times by S-Coda with a random track grouping, meta-track selection and meta target, each load with its own "
-            "buffer size and fault plan. distinct_nontrivial counts distinct abstract histories (crc of (planned fault, fired faults, "
-            "returned?, tpb, writer) per load) among runs with >=1 judged load AND >=1 fired fault.")
+    RULE = ("one run = one generated MIDI file (ticks-per-beat from 17 values incl. 7, 13, 25, 100, 1000; 1-5 tracks; notes on 16 "
+            "channels; note-off as note_off or note_on velocity 0; major and minor key signatures; messages S-Coda ignores (tempo, text, "
+            "controllers, pitch wheel) carrying delta times; music sometimes starting beyond 2**24 file ticks; written by mido or by a "
+            "byte-level writer with running status) placed in the run's scratch directory and loaded 1-3 times by S-Coda with a random "
+            "disjoint track grouping in any order, meta-track selection and meta target, each load with its own buffer size and fault "
+            "plan. Two further lanes: 'endurance' (one 10^5-note track per work chunk at an odd resolution) and 'near-tie' (1-2 % of runs: "
+            "resolutions up to 32767 with a large reduced denominator, note events 1/(2q) from a rounding tie, thousands of small-delta "
+            "filler messages). distinct_nontrivial counts distinct abstract histories (crc of (planned fault, fired faults, returned?, "
+            "tpb, writer) per load) among runs with >=1 judged load AND >=1 fired fault.")
     ASSUMPTIONS = [
         "notes are longer than 2 library ticks after scaling and same (channel, pitch) notes of one group are >= 2 library ticks apart "
         "(round() is half-to-even: positions 1 tick apart may collapse; zero-length notes are outside the statement)",
